@@ -28,8 +28,6 @@ TRUSTED = [
 ]
 ASSUMPTIONS = [
     "malloc does not fail; object sizes are below 2^60 bytes",
-    "UTF transforms: a region of more than (BUFFER_MALLOC_MAX-2)/2 = 52428799 bytes makes transform.c return NULL by design "
-    "(transform.c:133,158); the round-trip theorems are stated for regions below that limit",
 ]
 
 FMT = {"NONE": 0, "UTF8": 1, "UTF16LE": 2, "UTF16BE": 3, "UTF_ANY": 4, "BASE32": 5, "BASE32HEX": 6, "BASE64": 7}
@@ -169,6 +167,119 @@ def rand_cps(rng, n):
         else:
             cps.append(rng.range(0x10000, 0x10ffff))
     return cps
+
+
+MAXB = 100 * 1024 * 1024     # BUFFER_MALLOC_MAX of transform.c
+
+
+class BigCase:
+    """one region (or two) of tens of megabytes built inside the harness from a repeated pattern; the library is judged
+    on the object it returns: the inverse pair must accept THAT object and give the input back (no model run: a Coq
+    list of 10^8 bytes is out of reach; the theorems cover these sizes, the library is checked here)"""
+
+    def __init__(self, fi, fo, parts, what, prefix=b""):
+        self.fi, self.fo, self.parts, self.what = fi, fo, parts, what     # parts: list of (count, pattern bytes)
+        self.prefix = prefix        # literal bytes in front of the first region (a BOM)
+        self.kind = "bigregion"
+        self.res = None
+
+    def line(self):
+        return "R %d %d %s\n" % (self.fi, self.fo, ",".join("%s*%d:%s" % (self.prefix.hex() if k == 0 else "", n, pat.hex())
+                                                             for k, (n, pat) in enumerate(self.parts)))
+
+    def size(self):
+        return len(self.prefix) + sum(n * len(pat) for n, pat in self.parts)
+
+    def describe(self):
+        return (self.prefix.hex() + " + " if self.prefix else "") + ",".join("%d x %s" % (n, pat.hex()) for n, pat in self.parts)
+
+    def key(self):
+        return "%s>%s:big:%s" % (FNAME[self.fi], FNAME[self.fo], ",".join("%dx%s" % (n, pat.hex()) for n, pat in self.parts))
+
+    def obj(self):
+        return {"input_format": FNAME[self.fi], "output_format": FNAME[self.fo],
+                "regions": ["%d x %s (%d bytes)" % (n, pat.hex(), n * len(pat)) for n, pat in self.parts],
+                "harness_line": self.line().strip(), "generator": "bigregion: " + self.what}
+
+
+def gen_big(ctx):
+    """region sizes at and around the limits of _dispatch_transform_buffer_new: BUFFER_MALLOC_MAX/2, /3, the exact
+    boundaries (2*size+2 = MAX for UTF-8 input, howmany(size,3)*2 and size+k = MAX for UTF-16 input), and beyond"""
+    B = []
+    half = (MAXB - 2) // 2          # largest UTF-8 region whose first UTF-16 buffer (2*size+2) is <= MAX
+    third = MAXB // 3
+    u8_sizes = [third - 1, third + 1, half - 1, half, half + 1, 60000000]
+    u16_sizes = [2 * (third // 2), half - 1, half + 1, MAXB // 2 + 2, 90000000, MAXB - 6, MAXB, MAXB + 2]
+    if ctx.tier != "quick":
+        u8_sizes += [half - 2, half + 2, MAXB - 1, MAXB + 1, 3 * half]
+        u16_sizes += [2 * third, 3 * (MAXB // 4), MAXB - 4, MAXB - 2, 150000000, 150000006]
+    for n in u8_sizes:
+        B.append(BigCase(1, 2, [(n, b"a")], "UTF-8 ASCII, one region of %d bytes" % n))
+    for n in u8_sizes[2:5]:
+        B.append(BigCase(1, 3, [(n // 3, b"\xe4\xb8\x80")], "UTF-8 CJK, one region of %d bytes" % (n // 3 * 3)))
+    B.append(BigCase(1, 2, [(half, b"a"), (1, b"\xe4\xb8\x80"), (half, b"a")], "UTF-8, two regions at the limit"))
+    for n in u16_sizes:
+        B.append(BigCase(2, 1, [(n // 2 - 1, b"\x00\x4e")], "UTF-16LE BOM + CJK, one region of %d bytes" % (n // 2 * 2), prefix=b"\xff\xfe"))
+    for n in u16_sizes[3:6]:
+        B.append(BigCase(3, 1, [(n // 2 - 1, b"\x00\x61")], "UTF-16BE BOM + ASCII, one region of %d bytes" % (n // 2 * 2), prefix=b"\xfe\xff"))
+    B.append(BigCase(2, 1, [(n // 4, b"\x3d\xd8\x00\xde")], "UTF-16LE BOM + surrogate pairs, one region of %d bytes" % (n // 4 * 4 + 2), prefix=b"\xff\xfe"))
+    B.append(BigCase(0, 7, [(MAXB, b"\xa5")], "NONE > BASE64 of BUFFER_MALLOC_MAX bytes"))
+    B.append(BigCase(0, 5, [(MAXB // 2 + 1, b"\x5a")], "NONE > BASE32"))
+    return B
+
+
+def parse_summary(txt):
+    """S in=<size:hash:regions> out=<N|..> back=<N|..>  ->  list of dicts (None when the process died)"""
+    out = []
+    for l in txt.split("\n"):
+        if l.startswith("B "):
+            out.append(None)
+        elif l.startswith("S ") and out:
+            dct = {}
+            for tok in l[2:].split():
+                k, v = tok.split("=", 1)
+                if v == "N":
+                    dct[k] = "N"
+                else:
+                    sz, h, regs = v.split(":")
+                    dct[k] = {"size": int(sz), "hash": h, "regions": regs}
+            out[-1] = dct
+    return out
+
+
+def run_big(exe, cases, fail, asan=False):
+    env = dict(os.environ)
+    if asan:
+        env["ASAN_OPTIONS"] = "detect_leaks=0:abort_on_error=0:exitcode=99:allocator_may_return_null=1:max_allocation_size_mb=1024"
+    start = 0
+    n_run = 0
+    while start < len(cases):
+        r = common.run([exe], input="".join(c.line() for c in cases[start:]), timeout=1800, env=env)
+        res = parse_summary(r.stdout)
+        for i, x in enumerate(res):
+            cases[start + i].res = x
+            n_run += 1
+        if r.returncode == 0 and len(res) == len(cases) - start:
+            break
+        k = start + max(len(res) - 1, 0)
+        msum = re.search(r"SUMMARY: ([^\n]*)", r.stderr)
+        fail(cases[k], "crash: the library %s on a large region: %s" % ("(AddressSanitizer build) died" if asan else "crashed",
+                                                                       msum.group(1) if msum else "exit status %s" % r.returncode))
+        cases[k].res = None
+        start = k + 1
+    for c in cases:
+        x = c.res
+        if not x:
+            continue
+        if x.get("out") == "N":
+            fail(c, "null: well-formed input with a region of %d bytes is rejected (NULL)" % c.size(), impl="NULL")
+        elif x.get("back") == "N":
+            fail(c, "inverse: the object returned for a %d-byte region (%d bytes, regions %s) is rejected by the inverse "
+                    "transform applied to that very object" % (c.size(), x["out"]["size"], x["out"]["regions"]), impl=x)
+        elif isinstance(x.get("back"), dict) and (x["back"]["hash"] != x["in"]["hash"] or x["back"]["size"] != x["in"]["size"]):
+            fail(c, "roundtrip: transforming back the returned object gives %d bytes (hash %s), input was %d bytes (hash %s)"
+                 % (x["back"]["size"], x["back"]["hash"], x["in"]["size"], x["in"]["hash"]), impl=x)
+    return n_run
 
 
 def gen_cases(ctx):
@@ -468,7 +579,8 @@ def correspond(ctx):
             return
         seen.add(k)
         o = c.obj()
-        o.update({"key": k, "what": "%s > %s on regions [%s]: %s" % (FNAME[c.fi], FNAME[c.fo], ",".join(r.hex() for r in c.regions), what)})
+        desc = c.describe() if hasattr(c, "describe") else ",".join(r.hex() for r in c.regions)
+        o.update({"key": k, "what": "%s > %s on regions [%s]: %s" % (FNAME[c.fi], FNAME[c.fo], desc, what)})
         o.update(kw)
         fails.append(o)
 
@@ -527,6 +639,12 @@ def correspond(ctx):
                 mism.append({"what": "regular and AddressSanitizer builds of the library answer differently",
                              "detail": {"case": c.obj(), "regular": show(c.res), "asan": show(ax)}})
 
+    # ---- regions of tens of megabytes (around BUFFER_MALLOC_MAX/3, /2, the exact limits and beyond): library only
+    big = gen_big(ctx)
+    nbig = run_big(exe, big, fail)
+    if asan_exe is not None and ctx.tier != "quick":
+        nbig += run_big(asan_exe, gen_big(ctx)[::3], fail, asan=True)
+
     # ---- judge + compare
     for c, t in zip(cases, twins):
         x, m = c.res, c.model
@@ -580,11 +698,13 @@ def correspond(ctx):
     dist2["multi_region_inputs"] = sum(1 for c in cases if len(c.regions) > 1)
     dist2["inverse_runs"] = len(inv)
     dist2["asan_runs"] = len(asan_cases) if asan_exe else 0
+    dist2["big_region_runs"] = nbig
+    dist2["big_region_sizes"] = sorted({c.size() for c in big})
     dist2["model_outcomes"] = {"ok": sum(1 for c in cases if isinstance(c.model, tuple) and c.model[0] != "OOB"),
                                "null": sum(1 for c in cases if c.model == "N"),
                                "oob": sum(1 for c in cases if isinstance(c.model, tuple) and c.model[0] == "OOB")}
     samples = [dict(c.obj(), impl=show(c.res), model=show(c.model)) for c in (cases[0], cases[17], cases[len(cases) // 2], cases[-1])]
-    return {"evaluations": len(cases) + len(twins) + len(inv) + (len(asan_cases) if asan_exe else 0),
+    return {"evaluations": len(cases) + len(twins) + len(inv) + (len(asan_cases) if asan_exe else 0) + nbig,
             "distinct_nontrivial": nontrivial,
             "rule": "fixed corpus of defect witnesses, all 64 format pairs, all 256 byte values through each decode table, then "
                     "seeded random: byte strings of every length 0..16 and random lengths to 70 x {one region, single bytes, one cut, "
@@ -594,7 +714,10 @@ def correspond(ctx):
                     "UTF (bad lead bytes, truncation, encoded surrogates, overlong, >U+10FFFF, lone/reversed surrogates, wrong BOM, "
                     "odd length). Each case: library vs Model/Transform.v (NULL/non-NULL, exact bytes), library vs itself on the "
                     "unsplit bytes, inverse transform of the library's result on a fresh random split, and the same under "
-                    "AddressSanitizer",
+                    "AddressSanitizer. Plus single regions of 35-150 MB (sizes at and around BUFFER_MALLOC_MAX/3, /2, "
+                    "(MAX-2)/2, MAX-6, MAX and beyond; ASCII, CJK, surrogate pairs; UTF-8, UTF-16LE/BE, Base64/32) built in "
+                    "the harness: the inverse pair is applied to the very object the transform returned and must give the "
+                    "input back (library only, no model run at these sizes)",
             "samples": samples, "distribution": dist2, "mismatches": mism[:60], "failures": fails[:200], "notes": notes}
 
 
@@ -605,6 +728,11 @@ def replay(ctx, obj):
     for f in obj.get("failures", []):
         line = f.get("harness_line")
         if not line:
+            continue
+        if line.startswith("R "):
+            r = common.run([exe], input=line + "\n", timeout=900)
+            print("%s\n   now: %s" % (f.get("what"), r.stdout.strip().replace("\n", " | ")))
+            rc = 1
             continue
         fi, fo, regs = line.split(" ", 2)
         c = Case(int(fi), int(fo), [bytes.fromhex(h) for h in regs.split(",") if h != "-"], "replay")
